@@ -132,7 +132,7 @@ def random_runs(rep, exe, tag, nthreads, nsections, runs, seed):
     return validate_lock_traces(rep, lines, "random %s %dx%d" % (tag, nthreads, nsections))
 
 
-def replay_graph(rep, exe, cfgname, nthreads, nsections, tag, max_paths=None):
+def replay_graph(rep, exe, cfgname, nthreads, nsections, tag, max_paths=None, word_offset=0):
     d = os.path.join(vlib.CACHE, "lock_%d" % os.getpid())
     os.makedirs(d, exist_ok=True)
     dot = os.path.join(d, cfgname)
@@ -159,7 +159,8 @@ def replay_graph(rep, exe, cfgname, nthreads, nsections, tag, max_paths=None):
             for p in ch:
                 f.write(path_line(nthreads, nsections, p) + "\n")
         try:
-            pr = subprocess.run([exe, "--in", inp], capture_output=True, text=True, timeout=900)
+            pr = subprocess.run([exe, "--in", inp] + (["--word-offset", str(word_offset)] if word_offset else []),
+                                capture_output=True, text=True, timeout=900)
         except subprocess.TimeoutExpired:
             return [("timeout", ci, None, None)]
         os.unlink(inp)
@@ -293,6 +294,10 @@ def run(prop, tier, seed):
             if tier == "quick" and tag == "ndebug" and cfgname != "t2s2":
                 continue
             replays.append(replay_graph(rep, exe, cfgname, nt, ns, tag, mp))
+    # the same graph on a lock that has already seen 2^30 - 2 write sections: the words cross the 32-bit boundary
+    # during the run (a long-lived lock is an ordinary state; seed c07c: version arithmetic in 32 bits)
+    for off in ([2 ** 32 - 8] if tier == "quick" else [2 ** 32 - 8, 2 ** 32 - 16, 2 ** 48 - 8, 2 ** 63 - 2 ** 20]):
+        replays.append(replay_graph(rep, exes[1], "t2s2", 2, 2, "ndebug, lock word preset to %d" % off, None, word_offset=off))
     # 3. recorded executions -> contract (LockTrace.tla): random sticky schedules of random programs
     rnd = []
     rplan = [(2, 3, 4000), (3, 3, 4000)] if tier == "quick" else [(2, 3, 40000), (3, 3, 40000), (3, 4, 20000), (4, 2, 20000)]
